@@ -100,6 +100,19 @@ def _run_cargo(cfg, outdir, tgt, repo):
     return subprocess.run(cmd, cwd=repo, env=env, capture_output=True, text=True)
 
 
+def invalidate_workspace(tgt, extra=()):
+    """Delete the cargo fingerprints of the workspace members in a (shared) target dir.  Cargo hashes path packages
+    relative to their workspace root, so two copies of the repository (a scratch copy with an edit, /repo itself) share
+    artifact names in one target dir and freshness is then decided by mtimes - an edited copy whose files are older than
+    the last build would silently reuse the other copy's artifacts (including the proc-macro dylib)."""
+    names = list(WORKSPACE_CRATES) + list(extra)
+    for prof in ("debug", "release"):
+        for fp in glob.glob(os.path.join(tgt, prof, ".fingerprint", "*")):
+            base = os.path.basename(fp)
+            if any(base.startswith(c.replace("_", "-") + "-") or base.startswith(c + "-") for c in names):
+                shutil.rmtree(fp, ignore_errors=True)
+
+
 def extract(cfg, repo=None, verbose=True):
     """Return the directory with the fact files of configuration `cfg` for the current tree."""
     repo = repo or REPO
@@ -125,11 +138,7 @@ def extract(cfg, repo=None, verbose=True):
         tgt = os.path.join(CACHE, "target", cfg)
         for attempt in (0, 1):
             # force the workspace members through the wrapper again
-            for fp in glob.glob(os.path.join(tgt, "debug", ".fingerprint", "*")):
-                base = os.path.basename(fp)
-                if any(base.startswith(c.replace("_", "-") + "-") or base.startswith(c + "-")
-                       for c in WORKSPACE_CRATES):
-                    shutil.rmtree(fp, ignore_errors=True)
+            invalidate_workspace(tgt)
             r = _run_cargo(cfg, outdir, tgt, repo)
             files = glob.glob(os.path.join(outdir, "*.json"))
             if r.returncode == 0 and files:
